@@ -244,5 +244,7 @@ def run(check, ctx):
     from . import c_modes
     c_modes.mode_tables(check, ctx, ("ctr", "cfb", "ofb", "cbc", "ecb"), rule="SEG-c")
     check.floor("SEG-c", 5)
+    from . import c_keccak
+    c_keccak.keccak_tables(check, ctx, rule="SEG-c", groups=("sponge",))
     check.undecided.append("equality of results for every partition beyond the representative partitions; "
                            "buffer-protocol corner cases inside ctypes; OCB/GCM/Poly1305 native loops")
